@@ -40,6 +40,8 @@ var hostileTemplates = []string{
 	// prototype chains that run into a loop which does not contain the starting dict (rho shape), and long legal chains
 	"b={}; b.__proto__=b; a={}; a.__proto__=b; a.missing", "b={}; c={}; b.__proto__=c; c.__proto__=b; a={'k':1}; a.__proto__=b; [a.k, a.q, a.len()]",
 	"p={}; q={}; r={}; p.__proto__=q; q.__proto__=r; r.__proto__=q; t={}; t.__proto__=p; t.len() + t.zz", "a={'v':{v}}; i=0; while i<{m} { b={}; b.__proto__=a; a=b; i=i+1 }; a.v",
+	// a computed body whose last dice term has default sides and ends in a parenthesised operand followed by a blank
+	"&a = (2)dk(1) ; a", "&a = 1+3dk(2) ; a", "&a = 2dkh(1)\t; a + a", "&a = (1)d优势 ; a", "&a = [3d, (2)dq(1) ][1] ; a",
 	// definitions nested in definitions whose inner body rolls dice (process text spans of nested bodies)
 	"func f() { &a = 2d6 + 1; a }; f()", "func f() { func g() { 2d }; g() }; f()", "func f() { &a = 2d6; &b = a + d4; b }; f(); f() + 1", "func f(n) { func g(m) { &c = m + 3d1; c }; g(n) + d1 }; f({v})", "&o = `{% &i = 3d6; i %}`; o + o",
 	"x={}; x.__proto__=x; x.foo", "x={}; y={}; x.__proto__=y; y.__proto__=x; x.q", "x={'__proto__':{v}}; x.k", "x={}; x.__proto__={'a':{v}}; x.a",
